@@ -28,6 +28,13 @@ class TraceDB:
                 pass
         for i, e in enumerate(self.entries, 1):
             e["vals"] = sqlitefmt.decode_record(e["rec"])
+        # sqlite_master rows: type and name (for Tables() / Indexes())
+        self.master_ids = {}
+        for i in self.order[1]:
+            vs = self.entries[i - 1]["vals"]
+            if len(vs) == 5 and vs[0][0] == "t" and vs[1][0] == "t":
+                self.entries[i - 1]["mtype"] = vs[0][1].decode("utf-8", "replace")
+                self.master_ids[(self.entries[i - 1]["mtype"], vs[1][1].decode("utf-8", "replace").lower())] = i
         for root in roots:
             for i in self.order[root]:
                 e = self.entries[i - 1]
@@ -61,11 +68,11 @@ class TraceDB:
         ents = []
         for e in self.entries:
             if e["rowid"] is not None:
-                ents.append({"rowid": values.to_tla(("i", e["rowid"])), "rec": [], "ov": e["ovfl"]})
+                ents.append({"rowid": values.to_tla(("i", e["rowid"])), "rec": [], "ov": e["ovfl"], "mtype": e.get("mtype", "")})
             else:
                 vs = e["vals"]
                 rid = values.to_tla(vs[-1]) if vs and vs[-1][0] == "i" else ZERO
-                ents.append({"rowid": rid, "rec": [values.to_tla(x) for x in vs], "ov": e["ovfl"]})
+                ents.append({"rowid": rid, "rec": [values.to_tla(x) for x in vs], "ov": e["ovfl"], "mtype": ""})
         return {"nodes": nodes, "ents": ents}
 
 
@@ -119,7 +126,7 @@ class OpSet:
         else:
             h["table"] = obj
         o = {"op": op, "root": root, "rowid": ZERO, "key": [], "to": [], "stop": stop, "fail": fail,
-             "pro": "low", "lockfail": lockfail, "nested": "", "troot": 0, "pkcols": [], "pkdef": [], "nolock": False}
+             "pro": "low", "lockfail": lockfail, "nested": "", "troot": 0, "pkcols": [], "pkdef": [], "nolock": False, "mtype": ""}
         if rowid is not None:
             h["rowid"] = str(rowid)
             o["rowid"] = values.to_tla(("i", rowid))
@@ -138,6 +145,14 @@ class OpSet:
         self.items.append({"db": dbname, "h": h, "o": o, "conf": conf, "meta": meta or {}, "root": root})
         return len(self.items) - 1
 
+    def add_list(self, dbname, what, meta=None, conf=True):
+        """Tables() / Indexes(): what in ("table", "index")"""
+        h = {"op": "tables" if what == "table" else "indexes", "id": len(self.items)}
+        o = {"op": "list", "root": 1, "rowid": ZERO, "key": [], "to": [], "stop": 0, "fail": 0, "pro": "low", "lockfail": False,
+             "nested": "", "troot": 0, "pkcols": [], "pkdef": [], "nolock": False, "mtype": what}
+        self.items.append({"db": dbname, "h": h, "o": o, "conf": conf, "meta": dict(meta or {}, listing=what), "root": 1})
+        return len(self.items) - 1
+
     def add_hl(self, dbname, op, table, desc, index=None, key=None, rowid=None, stop=0, fail=0, fail_mode="err",
                lockfail=False, conf=True, meta=None):
         """High level API operation (sqlittle.DB.*), all columns requested.  `desc` is gen.describe()'s view
@@ -154,7 +169,7 @@ class OpSet:
             cols = [alias] + cols
         h = {"op": op, "id": len(self.items), "table": table, "cols": cols}
         o = {"op": "", "root": troot, "rowid": ZERO, "key": [], "to": [], "stop": stop, "fail": fail,
-             "pro": "low", "lockfail": lockfail, "nested": "", "troot": 0, "pkcols": [], "pkdef": [], "nolock": False}
+             "pro": "low", "lockfail": lockfail, "nested": "", "troot": 0, "pkcols": [], "pkdef": [], "nolock": False, "mtype": ""}
         pkidx = next((i for i in t["indexes"].values() if i["origin"] == "pk"), None)
         pknames = [c["name"] for c in sorted((c for c in t["columns"] if c["pk"]), key=lambda c: c["pk"])]
 
@@ -245,7 +260,10 @@ class OpSet:
             root = it["root"]
             outs = []
             hl = it["meta"].get("hl")
-            if hl:
+            if it["meta"].get("listing"):
+                outs = [tdb.master_ids.get((it["meta"]["listing"], str(nm).lower()), 0) for nm in (r.get("extra") or [])]
+                hl = True
+            elif hl:
                 outs = self._hl_out(tdb, it, r)
             for row in ([] if hl else (r.get("rows") or [])):
                 vs = [values.from_jval(j) for j in row]
@@ -272,18 +290,24 @@ class OpSet:
                     "cache0": [], "conf": bool(it["conf"]) and not r.get("panic")}
             if it.get("sq") is not None:
                 line["sq"] = it["sq"]
+            if it.get("lenient"):
+                line["lenient"] = True
             it["line"] = line
             lines.append(line)
         return lines
 
     def run(self, harness, workdir, tag="ops", timeout=1800):
         """Execute on the real code, build the TLC inputs, run TraceOps, return per item results."""
-        by_db = {}
+        by_db, groups = {}, {}
         for it in self.items:
-            by_db.setdefault(it["db"], []).append(it["h"])
+            if it.get("group") is not None:
+                groups.setdefault((it["db"], it["group"]), []).append(it["h"])     # one long-lived handle per group
+            else:
+                by_db.setdefault(it["db"], []).append(it["h"])
         req = os.path.join(workdir, tag + "-req.ndjson")
         out = os.path.join(workdir, tag + "-res.ndjson")
-        common.write_ndjson(req, [{"db": self.dbs[n].path, "mode": "fresh", "ops": ops} for n, ops in by_db.items()])
+        common.write_ndjson(req, [{"db": self.dbs[n].path, "mode": "fresh", "ops": ops} for n, ops in by_db.items()] +
+                            [{"db": self.dbs[n].path, "mode": "keep", "ops": ops} for (n, g), ops in groups.items()])
         rc, txt, _ = common.run([harness, "ops", req, out], timeout=timeout)
         if rc != 0:
             raise Infra("harness ops failed (rc=%d): %s" % (rc, txt[-2000:]))
@@ -311,6 +335,9 @@ class OpSet:
             it["why"], it["drift"] = [], False
         for b in verdict["bad"]:
             self.items[b["i"] - 1]["why"] = sorted(b["why"])
-        for i in verdict["drift"]:
-            self.items[i - 1]["drift"] = True
+        for dr in verdict["drift"]:
+            self.items[dr["i"] - 1]["drift"] = True
+            if os.environ.get("VERIF_DEBUG") and dr["mev"]:
+                it = self.items[dr["i"] - 1]
+                print("DRIFT", it["db"], it["h"], "\n  recorded:", it["line"]["ev"][:40], "\n  model   :", dr["mev"][:40])
         return t
